@@ -59,9 +59,41 @@ func (rr *conversionVisitor) addError(node sourcewalk.SourceNode, err error) {
 	rr.root.errors = append(rr.root.errors, err)
 }
 
+// isProtoIdent reports whether name can be written as a protobuf identifier
+// (the j5s lexer accepts any unicode letter in an identifier, protobuf only
+// ASCII letters, digits and '_').
+func isProtoIdent(name string) bool {
+	if name == "" {
+		return false
+	}
+	for i, c := range name {
+		switch {
+		case c >= 'a' && c <= 'z', c >= 'A' && c <= 'Z', c == '_':
+		case c >= '0' && c <= '9' && i > 0:
+		default:
+			return false
+		}
+	}
+	return true
+}
+
+// checkIdent reports a name the generated proto file could not carry: the
+// descriptor would be built, but neither printed and parsed again nor built
+// into an image.
+func (ww *conversionVisitor) checkIdent(node sourcewalk.SourceNode, what string, name string) bool {
+	if isProtoIdent(name) {
+		return true
+	}
+	ww.addErrorf(node, "%s name %q is not a valid protobuf identifier (letters a-z A-Z, digits and '_', not starting with a digit)", what, name)
+	return false
+}
+
 // duplicateType reports a message or enum whose name is already taken by an
-// earlier type of the file or message it belongs to.
+// earlier type of the file or message it belongs to, or is not an identifier.
 func (ww *conversionVisitor) duplicateType(node sourcewalk.SourceNode, name string) bool {
+	if !ww.checkIdent(node, "type", name) {
+		return true
+	}
 	if !ww.parentContext.hasType(name) {
 		return false
 	}
@@ -176,6 +208,14 @@ func (ww *conversionVisitor) visitTopicFileNode(tn *sourcewalk.TopicFileNode) er
 }
 
 func (ww *conversionVisitor) visitTopicNode(tn *sourcewalk.TopicNode) {
+	if !ww.checkIdent(tn.Source, "topic", tn.Name) {
+		return
+	}
+	for _, method := range tn.Methods {
+		if !ww.checkIdent(method.Source, "topic message", method.Name) {
+			return
+		}
+	}
 	desc := &descriptorpb.ServiceDescriptorProto{
 		Name:    gl.Ptr(tn.Name),
 		Options: &descriptorpb.ServiceOptions{},
@@ -238,6 +278,10 @@ func (ww *conversionVisitor) visitObjectNode(node *sourcewalk.ObjectNode) {
 			propertyDesc, err := buildProperty(inMessageWalker, node)
 			if err != nil {
 				ww.addError(node.Source, err)
+			}
+
+			if propertyDesc != nil && !ww.checkIdent(node.Source, "property", propertyDesc.GetName()) {
+				return nil
 			}
 
 			if propertyDesc != nil && message.hasField(propertyDesc.GetName()) {
@@ -330,6 +374,9 @@ func (ww *conversionVisitor) visitOneofNode(node *sourcewalk.OneofNode) {
 			// ask for a synthetic oneof of its own, which a member of the
 			// wrapper's oneof cannot have.
 			propertyDesc.Proto3Optional = nil
+			if !ww.checkIdent(node.Source, "option", propertyDesc.GetName()) {
+				return nil
+			}
 			if propertyDesc.GetName() == "type" {
 				// the proto oneof which holds the options is named 'type': the
 				// message would define the symbol twice (a link error in the generated file)
@@ -434,15 +481,18 @@ func (ww *conversionVisitor) visitEnumNode(node *sourcewalk.EnumNode) {
 	offset := len(node.Schema.Options) - len(optionsToSet) - 1
 	seen := map[string]*descriptorpb.EnumValueDescriptorProto{}
 	for idx, value := range eb.desc.Value {
+		source := node.Source
+		if idx+offset >= 0 {
+			source = node.OptionSource(idx + offset)
+		}
+		if !ww.checkIdent(source, "enum option", value.GetName()) {
+			continue
+		}
 		canonical := canonicalEnumValueName(value.GetName(), node.Schema.Name)
 		existing, ok := seen[canonical]
 		if !ok {
 			seen[canonical] = value
 			continue
-		}
-		source := node.Source
-		if idx+offset >= 0 {
-			source = node.OptionSource(idx + offset)
 		}
 		if existing.GetName() == value.GetName() {
 			ww.addErrorf(source, "enum %s: option %s is defined more than once", node.Schema.Name, value.GetName())
